@@ -67,7 +67,7 @@ Lemma one3_true : forall {A} (f : A -> option bool) l,
               forall k y, nth_error l k = Some y -> k <> i -> f y = Some false.
 Proof.
   intros A f l. induction l as [| h t IH]; simpl; [discriminate |].
-  destruct (f h) as [[|]|] eqn:Eh; [| | discriminate].
+  destruct (f h) as [[|]|] eqn:Eh.
   - intros H. exists 0%nat, h. split; [reflexivity | split; [exact Eh |]].
     intros k y Hk Hne. destruct k as [| k]; [congruence |]. simpl in Hk.
     rewrite map_map in H.
@@ -78,6 +78,8 @@ Proof.
     intros k y Hk Hne. destruct k as [| k]; simpl in Hk.
     + inversion Hk; subst. exact Eh.
     + apply (Hothers k); [exact Hk | lia].
+  - intros H. destruct (one3 (map f t)) as [[|]|]; try discriminate.
+    destruct (any3 (map f t)) as [[|]|]; discriminate.
 Qed.
 
 Lemma one3_false : forall {A} (f : A -> option bool) l,
@@ -88,13 +90,19 @@ Lemma one3_false : forall {A} (f : A -> option bool) l,
 Proof.
   intros A f l. induction l as [| h t IH]; simpl.
   - intros _. left. intros x [].
-  - destruct (f h) as [[|]|] eqn:Eh; [| | discriminate].
+  - destruct (f h) as [[|]|] eqn:Eh.
     + intros H. right. rewrite map_map in H.
       apply all3_false in H. destruct H as (y & Hin & Hy). apply not3_false in Hy.
       apply In_nth_error in Hin. destruct Hin as [k Hk].
       exists 0%nat, (S k), h, y. repeat split; auto.
     + intros H. destruct (IH H) as [Hall | (i & k & x & y & Hne & Hi & Hk & Hx & Hy)].
       * left. intros x [<- | Hin]; auto.
+      * right. exists (S i), (S k), x, y. repeat split; auto.
+    + intros H. destruct (one3 (map f t)) as [[|]|] eqn:Eo; try discriminate.
+      destruct (any3 (map f t)) as [[|]|] eqn:Ea; try discriminate.
+      destruct (IH eq_refl) as [Hall | (i & k & x & y & Hne & Hi & Hk & Hx & Hy)].
+      * exfalso. apply any3_true in Ea. destruct Ea as (x & Hin & Hx).
+        rewrite (Hall x Hin) in Hx. discriminate.
       * right. exists (S i), (S k), x, y. repeat split; auto.
 Qed.
 
